@@ -186,6 +186,45 @@ def base_triangle(rng, vk, basis, n_slices, res=None, fields=None, n_periods=Non
     return Triangle(out)
 
 
+MIXED_SAMPLES = 1024        # "bigmixed": mixed kinds with >= 1000 samples per array
+
+
+def mixed_kinds(rng, t, n_samples=None):
+    """the same cells with MIXED VALUE KINDS for one field across cells: int64 sample arrays, float64 sample arrays,
+    Python ints, floats, bools and None -- chosen per (cell, field), so that cells that get merged into one coordinate
+    (summarize across slices, aggregate across periods, blend, merge, to_cumulative along a row, coalesce, ...) meet
+    an integer array BEFORE a float array, a float before an int, a scalar before an array, etc. On the unchanged
+    library many of these inputs make the operation RAISE (UFuncTypeError, shape / kind checks): the arguments must be
+    intact after a raise as well."""
+    out = []
+    for c in t.cells:
+        vals = {}
+        for k, v in c.values.items():
+            n = n_samples or (len(v) if isinstance(v, np.ndarray) else 4)
+            r = rng.random()
+            if r < 0.38:
+                vals[k] = np.array([rng.randrange(1, 200) for _ in range(n)], dtype=np.int64)
+            elif r < 0.76:
+                vals[k] = np.array([rng.randrange(2, 400) / 2.0 + 0.25 for _ in range(n)], dtype=np.float64)
+            elif r < 0.84:
+                vals[k] = rng.randrange(1, 200)
+            elif r < 0.92:
+                vals[k] = rng.randrange(2, 400) / 4.0
+            elif r < 0.95:
+                vals[k] = bool(rng.randrange(2))
+            else:
+                vals[k] = None if k != "earned_premium" else 7.5
+        out.append(c.replace(values=vals))
+    return Triangle(out)
+
+
+# operations that ACCUMULATE several cells into one (quick tier: mixed-kind scenarios for these; thorough: for all)
+ACCUMULATING = ("summarize", "aggregate", "blend", "merge", "join", "period_merge", "loose_period_merge", "coalesce",
+                "Triangle.to_cumulative", "Triangle.to_incremental", "accident_quarter_to_policy_year", "add_statics",
+                "split", "Triangle.__add__", "summarize_cell_values", "blend_cells", "disaggregate", "bootstrap",
+                "moment_match", "convert_currency", "weight_geometric_decay", "build_plot_data")
+
+
 # ----------------------------------------------------------------------------------------------
 # REGISTRY: name -> builder(rng, t) returning (callable, args, kwargs). `t` is the current
 # triangle of the chain; further arguments are built here (and fingerprinted as well).
@@ -249,7 +288,9 @@ def other_like(rng, t, id_shift=10, fields=None):
     cells = []
     for c in t.cells:
         if rng.random() < 0.8:
-            vals = {k: (v * 2 if not isinstance(v, np.ndarray) else v * 2.0) for k, v in c.values.items()}
+            vals = {k: (None if v is None else (v * 2 if not isinstance(v, np.ndarray) else
+                        (v * 2 if v.dtype.kind in "iu" and rng.random() < 0.5 else v * 2.0)))
+                    for k, v in c.values.items()}
             if fields:
                 vals = {f: next(iter(vals.values())) for f in fields}
             cells.append(c.replace(values=vals))
@@ -258,7 +299,8 @@ def other_like(rng, t, id_shift=10, fields=None):
 
 def full_copy(t, factor=2):
     """a second triangle on exactly the same coordinates, own arrays"""
-    return Triangle([c.replace(values={k: v * factor for k, v in c.values.items()}) for c in t.cells])
+    return Triangle([c.replace(values={k: (None if v is None else v * factor) for k, v in c.values.items()})
+                     for c in t.cells])
 
 
 def first_slice(t):
@@ -912,13 +954,20 @@ def run_scenario(ctx, name, shape, position, seed, readonly):
     entry = REGISTRY[name]
     rng = random.Random(seed)
     vk, basis, ns, layout = shape
+    mixed = vk in ("mixed", "bigmixed")
+    mixed_n = MIXED_SAMPLES if vk == "bigmixed" else None
+    if mixed:
+        vk = "array"
     vk = vk if vk == "big" and entry["vk"] != "scalar" else (entry["vk"] or ("array" if vk == "big" else vk))
     basis = entry["basis"] or basis
     t0 = base_triangle(rng, vk, basis, ns, res=entry["res"], layout=layout,
-                       n_periods=2 if (entry["plot"] or vk == "big") and layout != "gappy" else None)
+                       n_periods=2 if (entry["plot"] or vk == "big" or mixed_n) and layout != "gappy" else None)
+    if mixed:
+        t0 = mixed_kinds(rng, t0, mixed_n)
+        vk = shape[0]
     links = [n for n, e in REGISTRY.items() if e["chain"] and n != name]
     chain = [rng.choice(links) for _ in range(position)]
-    if entry["plot"] and vk in ("array", "big"):
+    if entry["plot"] and vk in ("array", "big") and not mixed:
         # plots: observed (scalar) first evaluation of every period, predicted samples afterwards
         # (an all-sample triangle makes `_remove_triangle_samples` return an empty triangle)
         first = {}
@@ -1219,6 +1268,28 @@ def correspondence(ctx):
                 seed = rng.randrange(1 << 30)
                 for readonly in (False, True):
                     tasks.append((name, ("big", "cum", 1, "triangle"), 0, seed, readonly))
+    # MIXED VALUE KINDS per field across the cells that get merged (int64 array before float64 array, scalar before
+    # array, bool / None in between): every accumulating entry point (thorough: every operation taking arrays)
+    for oi, name in enumerate(names):
+        entry = REGISTRY[name]
+        slow = entry["plot"] or name in SLOW_OPS
+        if entry["vk"] == "scalar" or slow:
+            continue
+        if not ctx.thorough and not (name.split("(")[0].strip() in ACCUMULATING or name in ACCUMULATING):
+            continue
+        for rep in range(6 if ctx.thorough else 1):
+            for ns in (2, 3):
+                if not ctx.thorough and entry.get("variant", False) and ns == 3:
+                    continue
+                seed = rng.randrange(1 << 30)
+                shape = ("mixed", rng.choice(["cum", "inc"]), ns, LAYOUTS[(oi + ns + rep) % len(LAYOUTS)])
+                for readonly in (False, True):
+                    tasks.append((name, shape, rng.choice([0, 0, 1]) if ctx.thorough else 0, seed, readonly))
+    # TARGETED WIDENING: when the discipline rejects a function F of today's source, the operations whose translated
+    # call graph reaches F (or F's module: calls through tables of functions are not edges) get many more argument
+    # shapes -- mixed kinds, 2 and 3 slices (>= 3 cells per merged coordinate), every layout, >= 1000 samples,
+    # chain positions 0 and 1 -- before the search gives up.
+    tasks += targeted_tasks(ctx, rng, names)
     # scenarios are independent (own seed each): run them in worker processes, merge in task order
     results = run_tasks(tasks)
     for i, res in enumerate(results):
@@ -1236,6 +1307,8 @@ def correspondence(ctx):
                  sample={"op": name, "shape": res["shape"], "position": position, "chain": res["chain"],
                          "outcomes": res["trace"]} if i % 401 == 200 else None)
         ctx.count(f"shape/{shape[0]}-{shape[1]}-{shape[2]}")
+        if shape[0] in ("mixed", "bigmixed"):
+            ctx.count(f"mixed/{outcome.split(':')[0]}")
         ctx.count(f"layout/{shape[3]}")
         ctx.count(f"position/{min(position, 3)}{'+' if position >= 3 else ''}")
         ctx.count("run/readonly" if readonly else "run/plain")
@@ -1251,6 +1324,44 @@ def correspondence(ctx):
         ctx.count(f"op/{n}/raised", s.get("raised", 0))
     heap_correspondence(ctx, rng)
     heapir_report(ctx)
+
+
+def targeted_tasks(ctx, rng, names):
+    p = translate_c03ir._LAST.get("program")
+    if p is None or not p.violating:
+        return []
+    flagged = [k for k, _ in p.violating]
+    direct, by_module = translate_c03ir.operations_reaching(p, flagged, names)
+    ctx.notes.append("targeted search: discipline rejects " + json.dumps(flagged) + "; operations reaching them: "
+                     + json.dumps(direct) + "; operations reaching their module: " + json.dumps(by_module))
+    ops = [n for n in direct if not REGISTRY[n]["plot"]] + [n for n in by_module if not REGISTRY[n]["plot"]]
+    ops += [n for n in direct + by_module if REGISTRY[n]["plot"]][:6]
+    if not ops:
+        ops = [n for n in names if n.split("(")[0].strip() in ACCUMULATING]
+    budget = 1600 if not ctx.thorough else 6000
+    per_op = max(4, min(40, budget // (2 * max(1, len(ops)))))
+    out = []
+    for name in ops:
+        entry = REGISTRY[name]
+        slow = entry["plot"] or name in SLOW_OPS
+        reps = 2 if slow else per_op
+        for rep in range(reps):
+            kinds = ["mixed", "mixed", "mixed", "array", "bigmixed", "scalar"] if entry["vk"] != "scalar" else ["scalar"]
+            vk = kinds[rep % len(kinds)]
+            if slow and vk == "bigmixed":
+                vk = "mixed"
+            ns = (2, 3, 3, 1)[rep % 4]
+            if entry["plot"]:
+                ns = min(ns, 2)
+            shape = (vk, ("cum", "inc")[rep % 2], ns, LAYOUTS[rep % len(LAYOUTS)])
+            seed = rng.randrange(1 << 30)
+            position = 0 if (slow or vk == "bigmixed") else (0, 0, 1)[rep % 3]
+            for readonly in (False, True):
+                if slow and readonly:
+                    continue
+                out.append((name, shape, position, seed, readonly))
+                ctx.count("targeted/scenarios")
+    return out
 
 
 def regenerate_tables():
